@@ -44,7 +44,11 @@ def main():
                 viol = [l for l in out.splitlines() if l.startswith("VIOLATION")]
                 good = r.returncode == 1 and any(spec.get("expect", "") in l for l in viol)
                 want = "VIOLATION …" + spec.get("expect", "")
-            print(f"{'ok  ' if good else 'FAIL'} {name:45s} {dt:5.1f}s  want {want}; got exit {r.returncode}" + ("" if good else "\n" + out[-1500:]))
+            tail = ""
+            if not spec.get("harmless"):
+                hits = [l for l in out.splitlines() if l.startswith("VIOLATION") and spec.get("expect", "") in l]
+                if hits: tail = "  [" + hits[0].split()[-1] + "]"
+            print(f"{'ok  ' if good else 'FAIL'} {name:45s} {dt:5.1f}s  want {want}; got exit {r.returncode}{tail}" + ("" if good else "\n" + out[-1500:]))
             if not good: bad += 1
             sh("git", "-C", WT, "checkout", "--", ".")
     finally:
